@@ -2,9 +2,6 @@
     directories given as component lists. *)
 From InvokeVerif Require Export Common.FsTypes.
 
-(** Directory of a component list: [] is the root "/". *)
-Definition dir_str (comps : list string) : string := ("/" ++ join "/" comps)%string.
-
 Definition child (d n : string) : string :=
   if String.eqb d "/" then ("/" ++ n)%string else (d ++ "/" ++ n)%string.
 
@@ -42,19 +39,6 @@ Fixpoint first_candidate (fs : fsys) (name : string) (ds : list (list string))
 Definition expected (fs : fsys) (name : string) (comps : list string) : option (string * string) :=
   first_candidate fs name (ancestors comps).
 
-(** Components of a path string: empty ones (leading / trailing separator) and
-    "." dropped; ".." then removes the component before it. *)
-Definition raw_comps (p : string) : list string :=
-  filter (fun c => negb (String.eqb c "") && negb (String.eqb c ".")) (split_char "/"%char p).
-
-Definition resolve (l : list string) : list string :=
-  fold_left (fun acc c => if String.eqb c ".." then removelast acc else acc ++ [c]) l [].
-
-Definition comps_of (p : string) : list string := resolve (raw_comps p).
-
-Definition abs_comps (cwd start : string) : list string :=
-  if starts_with "/" start then comps_of start else resolve (raw_comps cwd ++ raw_comps start).
-
 (** What was observed: the loaded module's file and the reported project
     directory, both made absolute by the harness; or the exception. *)
 Inductive observed :=
@@ -86,10 +70,9 @@ Definition root_clear (fs : fsys) (name : string) : bool :=
 
 Definition is_nil {A} (l : list A) : bool := match l with [] => true | _ => false end.
 
-(** the proved region: absolute normalised start below the root, collection
-    name a plain component, the abstract file system honours
-    [os.listdir("")] = FileNotFoundError and lists every ancestor *)
-Definition guard_abs (fs : fsys) (comps : list string) (name : string) : bool :=
-  negb (is_nil comps) && comps_okb comps && comp_okb name &&
-  match listdir fs "" with None => true | Some _ => false end &&
-  all_listable fs comps.
+(** what remains of the guard after a51b5ff: the collection name is a plain
+    path component and the start directory exists, i.e. it and every directory
+    above it can be listed (a start directory that does not exist is outside
+    the property's quantifier: there is no "start point") *)
+Definition guard_exists (fs : fsys) (cwd start name : string) : bool :=
+  comp_okb name && all_listable fs (abs_comps cwd start).
